@@ -318,6 +318,7 @@ def run_pool(args, jobs, workers=12, job_timeout=20.0, env=None, total_timeout=7
     e = dict(os.environ)
     e.setdefault("RUST_MIN_STACK", "268435456")
     e["RUST_BACKTRACE"] = "0"
+    e.setdefault("GVH_MAX_JOBS", "250")      # workers retire after this many jobs; the loop below starts another one
     if env:
         e.update(env)
     results = {}
